@@ -44,7 +44,8 @@ func vhCheckPos(j vhJ, p Position, msg string) {
 }
 
 // VH_C20_Marshal: shape 0: one SQL event; 1: one rows event (2 rows x 2 columns, NULL / empty /
-// value / absent chosen per column); 2: two events (rows + SQL); 3: no events; 4: nil events.
+// value / absent chosen per column); 2: two events (rows + SQL); 3: no events; 4: nil events;
+// 5: a rows event without rows + SQL.
 func VH_C20_Marshal(shape int) {
 	tr := &Transaction{NowPosition: vhPos(), NextPosition: vhPos(), Timestamp: int64(vhU32())}
 	mkSQL := func() *StreamEvent {
@@ -96,6 +97,11 @@ func VH_C20_Marshal(shape int) {
 		tr.Events = []*StreamEvent{mkRows(), mkSQL()}
 	case 3:
 		tr.Events = []*StreamEvent{}
+	case 5:
+		// a rows event that carries no row (an empty rows section), followed by a statement
+		empty := newStreamEvent([]StatementType{StatementInsert, StatementUpdate, StatementDelete}[vhChoose(3)], int64(vhU32()),
+			NewMysqlTableName(string(vhASCII(1)), string(vhASCII(1))))
+		tr.Events = []*StreamEvent{empty, mkSQL()}
 	}
 	out, err := json.Marshal(tr)
 	vhAssert(err == nil, "serialising a transaction succeeds")
